@@ -171,3 +171,291 @@ Proof.
 Qed.
 
 End L.
+
+Section L2.
+Context {W : Type}.
+Implicit Types s : st W.
+
+(* ------------------------------------------------------------------ rates are non-negative *)
+Definition nonneg_tb (tb : table W) : Prop :=
+  Forall (fun p => Forall (fun ev => 0 <= ev_p ev) (p_events p)) (t_procs tb).
+
+Lemma index_events_nonneg pi j evs : Forall (fun ev => 0 <= ev_p ev) evs ->
+  Forall (fun x : nat * nat * event => 0 <= ev_p (snd x)) (index_events pi j evs).
+Proof.
+  revert j. induction evs as [|e evs IH]; intros j H; cbn; [constructor|].
+  inversion H; subst. constructor; [assumption|apply IH; assumption].
+Qed.
+
+Lemma all_events_nonneg (tb : table W) : nonneg_tb tb ->
+  Forall (fun x : nat * nat * event => 0 <= ev_p (snd x)) (all_events tb).
+Proof.
+  unfold nonneg_tb, all_events. generalize 0%nat. induction (t_procs tb) as [|p ps IH]; intros pi H; cbn; [constructor|].
+  inversion H; subst. apply Forall_app. split; [apply index_events_nonneg; assumption|apply IH; assumption].
+Qed.
+
+Lemma transitions_nonneg (tb : table W) : nonneg_tb tb ->
+  Forall (fun x : nat * nat * event => 0 <= ev_p (snd x)) (transitions tb).
+Proof.
+  intros H. apply all_events_nonneg in H. unfold transitions, per_element, fixed_rate.
+  rewrite Forall_forall in *. intros x Hx. apply in_app_or in Hx.
+  destruct Hx as [Hx|Hx]; apply filter_In in Hx; apply H, Hx.
+Qed.
+
+Lemma qlen_nonneg l : 0 <= qlen l.
+Proof. unfold qlen. change 0 with (inject_Z 0). rewrite <- Zle_Qle. lia. Qed.
+
+Lemma rate_nonneg s x : 0 <= ev_p (snd x) -> 0 <= rate s x.
+Proof.
+  intros H. unfold rate. destruct (ev_elem (snd x)); [|exact H].
+  rewrite Qred_correct. apply Qmult_le_0_compat; [exact H|apply qlen_nonneg].
+Qed.
+
+Lemma sum_rates_nonneg s trs : Forall (fun x : nat * nat * event => 0 <= ev_p (snd x)) trs -> 0 <= sum_rates s trs.
+Proof.
+  unfold sum_rates. intros H.
+  assert (G : forall a, 0 <= a -> 0 <= fold_left (fun a x => Qred (a + rate s x)) trs a); [|apply G; lra].
+  induction trs as [|x trs IH]; intros a Ha; cbn [fold_left]; [exact Ha|].
+  inversion H; subst. apply IH; [assumption|]. rewrite Qred_correct.
+  pose proof (rate_nonneg s x H2). lra.
+Qed.
+
+Lemma dt_nonneg a ln : 0 <= a -> Qeq_bool a 0 = false -> 0 <= ln -> 0 <= Qred ((1 / a) * ln).
+Proof.
+  intros Ha Hne Hln. rewrite Qred_correct.
+  assert (Hpos : 0 < a).
+  { destruct (Qlt_le_dec 0 a) as [H|H]; [exact H|]. exfalso.
+    assert (E : a == 0) by lra. apply Qeq_bool_iff in E. congruence. }
+  apply Qmult_le_0_compat; [|exact Hln].
+  unfold Qdiv. rewrite Qmult_1_l. apply Qlt_le_weak, Qinv_lt_0_compat, Hpos.
+Qed.
+
+(* ------------------------------------------------------------------ stochastic dynamics *)
+Inductive step_res := Stop (s : st W) | Cont (nt : Q) (n : nat) (s : st W) (l : list entry).
+
+Definition stoch_step (tb : table W) (pf : nat) (t : Q) (s : st W) : step_res :=
+  let trs := transitions tb in
+  let a := sum_rates s trs in
+  if Qeq_bool a 0 then
+    match next_pending_time s with
+    | (None, s') => Stop s'
+    | (Some et, s') => let '(n, s'', l) := run_pendingL tb pf et 0 s' in Cont et n s'' l
+    end
+  else
+    let '(_, s1) := next_rand s in
+    let '(ln, s2) := next_ln s1 in
+    let dt := Qred ((1 / a) * ln) in
+    match trs with
+    | [] => Stop (set_stuck s)
+    | x0 :: rest =>
+        let '(x, s3) := match rest with
+                        | [] => (x0, s2)
+                        | _ => let '(r2, s3) := next_rand s2 in (select (rate s) (r2 * a) 0 x0 trs, s3)
+                        end in
+        let nt := Qred (t + dt) in
+        let '(n, s4, l) := run_pendingL tb pf nt 0 s3 in
+        let s5 := set_clock nt s4 in
+        let lc := locus s5 (ev_locus (snd x)) in
+        match lc with
+        | [] => Cont nt n s5 l
+        | _ => let '(k, s6) := next_draw s5 in
+               Cont nt (S n) (fire_event tb x nt (nth (k mod length lc) lc (EN 0)) s6) l
+        end
+    end.
+
+(* the loops' exit test: maximum time reached, or the process' own equilibrium test *)
+Definition at_end (tb : table W) (t : Q) (s : st W) : bool :=
+  Qle_bool (t_maxtime tb) t || t_equil tb (loci s) (world s).
+
+Fixpoint stoch_loopL (tb : table W) (pf fuel : nat) (t : Q) (events : nat) (s : st W) : Q * nat * st W * list entry :=
+  match fuel with
+  | O => (t, events, set_stuck s, [])
+  | S f =>
+      if at_end tb t s then (t, events, s, [])
+      else match stoch_step tb pf t s with
+           | Stop s' => (t, events, s', [])
+           | Cont nt n s' l =>
+               let '(t', ev', sf, l') := stoch_loopL tb pf f nt (events + n) s' in (t', ev', sf, l ++ l')
+           end
+  end.
+
+Lemma stoch_loopL_fst tb pf fuel t events s :
+  fst (stoch_loopL tb pf fuel t events s) = stoch_loop tb pf fuel t events s.
+Proof.
+  revert t events s. induction fuel as [|f IH]; intros t events s; cbn [stoch_loopL stoch_loop]; [reflexivity|].
+  unfold at_end. destruct (Qle_bool (t_maxtime tb) t || t_equil tb (loci s) (world s)); [reflexivity|].
+  unfold stoch_step.
+  destruct (Qeq_bool (sum_rates s (transitions tb)) 0).
+  - destruct (next_pending_time s) as [[et|] s']; [|reflexivity].
+    rewrite <- (run_pendingL_fst tb pf et 0 s').
+    destruct (run_pendingL tb pf et 0 s') as [[n s''] l]. cbn [fst].
+    rewrite <- IH. destruct (stoch_loopL tb pf f et (events + n) s'') as [[[t' ev'] sf] l']. reflexivity.
+  - destruct (next_rand s) as [r1 s1]. destruct (next_ln s1) as [ln s2].
+    destruct (transitions tb) as [|x0 rest]; [reflexivity|].
+    destruct (match rest with [] => (x0, s2) | _ :: _ => _ end) as [x s3].
+    rewrite <- (run_pendingL_fst tb pf _ 0 s3).
+    destruct (run_pendingL tb pf _ 0 s3) as [[n s4] l]. cbn [fst].
+    destruct (locus (set_clock _ s4) (ev_locus (snd x))) as [|e0 lc].
+    + rewrite <- IH. destruct (stoch_loopL tb pf f _ (events + n) _) as [[[t' ev'] sf] l']. reflexivity.
+    + destruct (next_draw (set_clock _ s4)) as [k s6].
+      rewrite <- IH, Nat.add_succ_r. destruct (stoch_loopL tb pf f _ _ _) as [[[t' ev'] sf] l']. reflexivity.
+Qed.
+
+(* what one iteration of the stochastic loop does *)
+Inductive step_spec (tb : table W) (pf : nat) (t : Q) (s : st W) : step_res -> Prop :=
+| ss_none : head (queue (discard s)) = None -> step_spec tb pf t s (Stop (discard s))
+| ss_stuck : step_spec tb pf t s (Stop (set_stuck s))
+| ss_pend h n s' l : head (queue (discard s)) = Some h ->
+    run_pendingL tb pf (e_time h) 0 (discard s) = (n, s', l) -> step_spec tb pf t s (Cont (e_time h) n s' l)
+| ss_ev0 s3 nt n s4 l : osame s s3 -> (nonneg_tb tb -> Forall (Qle 0) (lns s) -> t <= nt) ->
+    run_pendingL tb pf nt 0 s3 = (n, s4, l) -> step_spec tb pf t s (Cont nt n (set_clock nt s4) l)
+| ss_ev1 s3 nt n s4 l s6 x e : osame s s3 -> (nonneg_tb tb -> Forall (Qle 0) (lns s) -> t <= nt) ->
+    run_pendingL tb pf nt 0 s3 = (n, s4, l) -> osame (set_clock nt s4) s6 ->
+    step_spec tb pf t s (Cont nt (S n) (fire_event tb x nt e s6) l).
+
+Lemma stoch_step_spec tb pf t s : step_spec tb pf t s (stoch_step tb pf t s).
+Proof.
+  unfold stoch_step.
+  destruct (Qeq_bool (sum_rates s (transitions tb)) 0) eqn:Ea.
+  - unfold next_pending_time. destruct (head (queue (discard s))) as [h|] eqn:Eh; cbn [option_map].
+    + destruct (run_pendingL tb pf (e_time h) 0 (discard s)) as [[n s''] l] eqn:E.
+      eapply ss_pend; eassumption.
+    + apply ss_none. exact Eh.
+  - pose proof (next_rand_osame s) as H1. destruct (next_rand s) as [r1 s1]. cbn [snd] in H1.
+    pose proof (next_ln_osame s1) as H2. pose proof (next_ln_val s1) as Hv.
+    destruct (next_ln s1) as [ln s2]. cbn [snd fst] in H2, Hv.
+    destruct (transitions tb) as [|x0 rest] eqn:Et; [apply ss_stuck|].
+    assert (H3 : osame s2 (snd (match rest with
+                                | [] => (x0, s2)
+                                | _ :: _ => let '(r2, s3) := next_rand s2 in
+                                            (select (rate s) (r2 * sum_rates s (x0 :: rest)) 0 x0 (x0 :: rest), s3)
+                                end))).
+    { destruct rest; [apply osame_refl|]. pose proof (next_rand_osame s2) as H. destruct (next_rand s2). exact H. }
+    destruct (match rest with [] => (x0, s2) | _ :: _ => _ end) as [x s3]. cbn [snd] in H3.
+    assert (Hs3 : osame s s3) by (eapply osame_trans; [exact H1|eapply osame_trans; eassumption]).
+    assert (Hnt : nonneg_tb tb -> Forall (Qle 0) (lns s) -> t <= Qred (t + Qred (1 / sum_rates s (x0 :: rest) * ln))).
+    { intros Hnn Hl.
+      assert (0 <= Qred (1 / sum_rates s (x0 :: rest) * ln)); [|rewrite Qred_correct; lra].
+      apply dt_nonneg; [|exact Ea|].
+      - apply sum_rates_nonneg. rewrite <- Et. apply transitions_nonneg, Hnn.
+      - destruct Hv as [->|Hv]; [lra|]. rewrite Forall_forall in Hl. apply Hl.
+        destruct H1 as [_ [_ [Hi _]]]. apply Hi. exact Hv. }
+    destruct (run_pendingL tb pf _ 0 s3) as [[n s4] l] eqn:E.
+    destruct (locus (set_clock _ s4) (ev_locus (snd x))) as [|e0 lc].
+    + eapply ss_ev0; eassumption.
+    + pose proof (next_draw_osame (set_clock (Qred (t + Qred (1 / sum_rates s (x0 :: rest) * ln))) s4)) as H6.
+      destruct (next_draw (set_clock _ s4)) as [k s6]. cbn [snd] in H6.
+      eapply ss_ev1; eassumption.
+Qed.
+
+(* induction over the stochastic loop: an invariant of the loop head (time, events, state, fired so far) *)
+Lemma stoch_loopL_inv (tb : table W) (pf : nat) (I : Q -> nat -> st W -> list entry -> Prop) :
+  (forall t ev s lg, I t ev s lg -> I t ev (set_stuck s) lg) ->
+  (forall t ev s lg r, I t ev s lg -> at_end tb t s = false -> step_spec tb pf t s r ->
+     match r with Stop s' => I t ev s' lg | Cont nt n s' l => I nt (ev + n)%nat s' (lg ++ l) end) ->
+  forall fuel t ev s lg t' ev' s' l', I t ev s lg ->
+    stoch_loopL tb pf fuel t ev s = (t', ev', s', l') -> I t' ev' s' (lg ++ l').
+Proof.
+  intros Hst Hstep. induction fuel as [|f IH]; intros t ev s lg t' ev' s' l' HI; cbn [stoch_loopL].
+  - intros [= <- <- <- <-]. rewrite app_nil_r. apply Hst, HI.
+  - destruct (at_end tb t s) eqn:Em; [intros [= <- <- <- <-]; rewrite app_nil_r; exact HI|].
+    pose proof (Hstep t ev s lg _ HI Em (stoch_step_spec tb pf t s)) as H.
+    destruct (stoch_step tb pf t s) as [s1|nt n s1 l]; [intros [= <- <- <- <-]; rewrite app_nil_r; exact H|].
+    destruct (stoch_loopL tb pf f nt (ev + n) s1) as [[[t1 ev1] sf] l1] eqn:E. intros [= <- <- <- <-].
+    rewrite app_assoc. eapply IH; eassumption.
+Qed.
+
+(* ------------------------------------------------------------------ synchronous dynamics *)
+Definition sync_step (tb : table W) (pf : nat) (t : Q) (s : st W) : nat * st W * list entry :=
+  let s0 := set_clock t s in
+  let '(n, s1, l) := run_pendingL tb pf t 0 s0 in
+  let s1' := set_clock t s1 in
+  let '(evs, s2) := tranche tb s1' in
+  let '(nev, s3) := fire_tranche tb t evs n s2 in (nev, s3, l).
+
+Fixpoint sync_loopL (tb : table W) (pf fuel : nat) (t : Q) (events steps : nat) (s : st W)
+  : Q * nat * nat * st W * list entry :=
+  match fuel with
+  | O => (t, events, steps, set_stuck s, [])
+  | S f =>
+      if at_end tb t s then (t, events, steps, s, [])
+      else
+        let '(nev, s3, l) := sync_step tb pf t s in
+        let '(t', ev', st', sf, l') :=
+          sync_loopL tb pf f (Qred (t + 1)) (events + nev) (if (0 <? nev)%nat then S steps else steps) s3 in
+        (t', ev', st', sf, l ++ l')
+  end.
+
+Lemma sync_loopL_fst tb pf fuel t events steps s :
+  fst (sync_loopL tb pf fuel t events steps s) = sync_loop tb pf fuel t events steps s.
+Proof.
+  revert t events steps s. induction fuel as [|f IH]; intros t events steps s; cbn [sync_loopL sync_loop]; [reflexivity|].
+  unfold at_end. destruct (Qle_bool (t_maxtime tb) t || t_equil tb (loci s) (world s)); [reflexivity|].
+  unfold sync_step. rewrite <- (run_pendingL_fst tb pf t 0 (set_clock t s)).
+  destruct (run_pendingL tb pf t 0 (set_clock t s)) as [[n s1] l]. cbn [fst].
+  destruct (tranche tb (set_clock t s1)) as [evs s2].
+  destruct (fire_tranche tb t evs n s2) as [nev s3].
+  rewrite <- IH. destruct (sync_loopL tb pf f _ _ _ s3) as [[[[t' ev'] st'] sf] l']. reflexivity.
+Qed.
+
+Inductive sync_spec (tb : table W) (pf : nat) (t : Q) (s : st W) : nat * st W * list entry -> Prop :=
+| sy_step n s1 l s2 evs nev s3 : run_pendingL tb pf t 0 (set_clock t s) = (n, s1, l) ->
+    osame (set_clock t s1) s2 -> fire_tranche tb t evs n s2 = (nev, s3) -> sync_spec tb pf t s (nev, s3, l).
+
+Lemma sync_step_spec tb pf t s : sync_spec tb pf t s (sync_step tb pf t s).
+Proof.
+  unfold sync_step. destruct (run_pendingL tb pf t 0 (set_clock t s)) as [[n s1] l] eqn:E.
+  pose proof (tranche_osame tb (set_clock t s1)) as H. destruct (tranche tb (set_clock t s1)) as [evs s2].
+  cbn [snd] in H. destruct (fire_tranche tb t evs n s2) as [nev s3] eqn:E2.
+  eapply sy_step; eassumption.
+Qed.
+
+Lemma fire_tranche_inv (tb : table W) (t : Q) (I : nat -> st W -> Prop) :
+  (forall nev s x e, I nev s -> I (S nev) (fire_event tb x t e s)) ->
+  forall evs nev s nev' s', I nev s -> fire_tranche tb t evs nev s = (nev', s') -> I nev' s'.
+Proof.
+  intros Hf. induction evs as [|[x e] evs IH]; intros nev s nev' s' HI; cbn [fire_tranche].
+  - intros [= <- <-]. exact HI.
+  - destruct (mem e (locus s (ev_locus (snd x)))); [|apply IH; exact HI].
+    apply IH. apply Hf, HI.
+Qed.
+
+Lemma sync_loopL_inv (tb : table W) (pf : nat) (I : Q -> nat -> nat -> st W -> list entry -> Prop) :
+  (forall t ev k s lg, I t ev k s lg -> I t ev k (set_stuck s) lg) ->
+  (forall t ev k s lg nev s' l, I t ev k s lg -> at_end tb t s = false -> sync_spec tb pf t s (nev, s', l) ->
+     I (Qred (t + 1)) (ev + nev)%nat (if (0 <? nev)%nat then S k else k) s' (lg ++ l)) ->
+  forall fuel t ev k s lg t' ev' k' s' l', I t ev k s lg ->
+    sync_loopL tb pf fuel t ev k s = (t', ev', k', s', l') -> I t' ev' k' s' (lg ++ l').
+Proof.
+  intros Hst Hstep. induction fuel as [|f IH]; intros t ev k s lg t' ev' k' s' l' HI; cbn [sync_loopL].
+  - intros [= <- <- <- <- <-]. rewrite app_nil_r. apply Hst, HI.
+  - destruct (at_end tb t s) eqn:Em; [intros [= <- <- <- <- <-]; rewrite app_nil_r; exact HI|].
+    pose proof (sync_step_spec tb pf t s) as Hs.
+    destruct (sync_step tb pf t s) as [[nev s3] l].
+    pose proof (Hstep t ev k s lg nev s3 l HI Em Hs) as H.
+    destruct (sync_loopL tb pf f _ _ _ s3) as [[[[t1 ev1] k1] sf] l1] eqn:E. intros [= <- <- <- <- <-].
+    rewrite app_assoc. eapply IH; eassumption.
+Qed.
+
+(* ------------------------------------------------------------------ set-up *)
+Definition init_state (tb : table W) (rs ls : list Q) (ds : list nat) : st W :=
+  {| clock := 0; nextid := 0; queue := []; loci := init_loci tb; world := t_world tb;
+     ids := []; out := []; rands := rs; lns := ls; draws := ds; stuck := false |}.
+
+Lemma setup_fold_umoves (ps : list proc) (k : nat) s :
+  let s' := fst (fold_left (fun (acc : st W * nat) p => (run_actions (snd acc) 0 (EN 0) (p_setup p) (fst acc), S (snd acc))) ps (s, k)) in
+  umoves (core_of s) (core_of s') /\ okeep s s'.
+Proof.
+  revert k s. induction ps as [|p ps IH]; intros k s; cbn [fold_left fst snd].
+  - split; [apply us_refl|apply okeep_refl].
+  - destruct (IH (S k) (run_actions k 0 (EN 0) (p_setup p) s)) as [A B]. split.
+    + eapply umoves_trans; [apply run_actions_umoves|exact A].
+    + eapply okeep_trans; [apply run_actions_okeep|exact B].
+Qed.
+
+Lemma setup_state_umoves tb rs ls ds :
+  umoves (core_of (init_state tb rs ls ds)) (core_of (setup_state tb rs ls ds))
+  /\ okeep (init_state tb rs ls ds) (setup_state tb rs ls ds).
+Proof. apply (setup_fold_umoves (t_procs tb) 0 (init_state tb rs ls ds)). Qed.
+
+End L2.
